@@ -7,7 +7,7 @@ for f in selftest/mustpass/*.diff; do
   (cd $sc && GOFLAGS=-mod=mod GOPROXY=off GOSUMDB=off GOTOOLCHAIN=local go build ./... ) || { echo "NOBUILD $f"; rm -rf $sc; continue; }
   bad=""
   for p in C02 C03 C04 C05 C06 C07 C08 C09 C10 C11 C12 C13 C14 C15 C16 C17 C18 C19 C20; do
-    /verif/bin/govc check $p --repo $sc --no-evidence >/tmp/mp.out 2>&1 || bad="$bad $p:$(grep '^FAILED' /tmp/mp.out | head -1 | cut -c8-90)"
+    ${GOVC:-/verif/bin/govc} check $p --repo $sc --no-evidence >/tmp/mp.out 2>&1 || bad="$bad $p:$(grep '^FAILED' /tmp/mp.out | head -1 | cut -c8-90)"
   done
   rm -rf $sc
   if [ -z "$bad" ]; then echo "QUIET  $f"; else echo "ALARM  $f ::$bad"; fi
